@@ -57,7 +57,7 @@ func encodeDate(date time.Time) []byte {
 	if date.IsZero() {
 		return []byte{_nilTag}
 	}
-	if date.UnixNano()%int64(time.Second) > 0 {
+	if date.Nanosecond() != 0 {
 		value := date.UnixNano() / int64(time.Millisecond)
 
 		// 8 octet longs
